@@ -775,6 +775,17 @@ def discharge(prog, body, s):
             if la is not None and la == lb:
                 return 'both sides have constant length %s' % la
         return None
+    if k == 'SplitAt':
+        if len(t.args) >= 2:
+            aty = t.arg_tys[0] if t.arg_tys else ''
+            mm = re.search(r'\[u8; (\d+)\]', aty)
+            K = int(mm.group(1)) if (mm and 'Vec' not in aty) else slice_len_of(body, t.args[0])
+            if K is None:
+                K = len_lower_bound(prog, body, s.bb, t.args[0])
+            iv = refined_interval(prog, body, s.bb, t.args[1])
+            if K is not None and iv is not None and iv[1] <= K:
+                return 'split point %s within length %d' % (iv, K)
+        return None
     if k == 'ChunkSize':
         if len(t.args) >= 2:
             iv = interval(body, t.args[1])
